@@ -32,6 +32,9 @@ def main():
             for e in stages.SET_JOINS:
                 cfg = stages.join_cfg(e, out_attrs=out, **dims)
                 cfg.update(shape)
+                # 'the part of the result over present values is unchanged': completeness / soundness of
+                # the present pairs while some rows are missing belongs to this property too
+                cfg['props'] = P + ['C01', 'C02']
                 ck.e2('%s-%dx%d-o%d' % (e, shape['nl'], shape['nr'], oi), h_join.make(cfg),
                       stop_on_violation=True)
             for f in stages.FILTERS:
